@@ -32,9 +32,9 @@ def run(ctx, chk):
                 if s["f"] == "ref" and s["mut"] and s["chain"] and s["chain"][-1][1] == "next_id" and s["chain"][-1][0].endswith("Builder"):
                     writers.setdefault(mir_name(p) + " (&mut)", []).append(where(s["span"]))
     for wname, spans in sorted(writers.items()):
-        chk.check(R1, wname.endswith("Builder::id"), "writer:" + wname,
+        chk.check(R1, wname.replace(" (&mut)", "").endswith("Builder::id"), "writer:" + wname,
                   "%s writes Builder.next_id (only Builder::id may)" % wname, spans[0], key="C13:next_id-writer:%s" % wname)
-    chk.check(R1, any(w.endswith("Builder::id") for w in writers), "writer:Builder::id:exists", "Builder::id does not write next_id", raw.where("id", "Builder"))
+    chk.check(R1, any(w.replace(" (&mut)", "").endswith("Builder::id") for w in writers), "writer:Builder::id:exists", "Builder::id does not write next_id", raw.where("id", "Builder"))
     # struct-literal initialisations of Builder (the only other way to set next_id)
     ninit = 0
     for f in ctx.rspirv.fns(BLD, "Builder"):
@@ -58,20 +58,13 @@ def run(ctx, chk):
                 else:
                     chk.bad(R1, "init:" + f["name"], "Builder constructed in %s with next_id = %s" % (f["name"], show(v)), w)
     f = ctx.rspirv.fn(BLD, "id", "Builder")
-    st = [show_stmt(s) for s in f["body"][1]]
-    chk.check(R1, st == ["let id = self.next_id;", "self.next_id += 1;", "id"] or
-              (len(st) == 3 and st[0].startswith("let ") and st[0].endswith("= self.next_id;") and st[1] == "self.next_id += 1;"
-               and st[2] == st[0][4:].split(" ")[0]),
-              "id():read-then-increment", "Builder::id is %s" % st, raw.where("id", "Builder"), sample=st)
+    res = eval_counter(f)
+    chk.check(R1, res == ("N", ("N", 1)), "id():read-then-increment",
+              "Builder::id returns %s and leaves next_id = %s (expected: returns N, leaves N+1)" % (fmt_lin(res[0]) if res else "?", fmt_lin(res[1]) if res else "?"),
+              raw.where("id", "Builder"), sample=[show_stmt(s_) for s_ in f["body"][1]])
     f = ctx.rspirv.fn(BLD, "module", "Builder")
-    txt = show(f["body"])
-    m = [n for n in walk(f["body"]) if n[0] == "match"]
-    good = False
-    if len(m) == 1 and len(m[0][2]) == 2:
-        arms = {show(a[0]): show(unblock(a[2])) for a in m[0][2]}
-        good = arms.get("Some(header)") == "header.bound = self.next_id" and \
-            arms.get("None") == "module.header = Some(dr::ModuleHeader::new(self.next_id))"
-    chk.check(R1, good, "module():bound=next_id", "Builder::module does not store next_id as the bound on both branches: %s" % txt[:200],
+    good, why = module_bound_shape(f)
+    chk.check(R1, good, "module():bound=next_id", "Builder::module does not store next_id as the header bound on both branches: %s" % why,
               raw.where("module", "Builder"))
     hn = ctx.rspirv.fn("rspirv::dr::constructs", "new", "ModuleHeader", False)
     hb = [n for n in walk(hn["body"]) if n[0] == "struct" and n[1].split("::")[-1] == "ModuleHeader"]
@@ -119,8 +112,8 @@ def run(ctx, chk):
                       "operands added in an unrecognised way (%s %s): the lookup may compare an incomplete declaration" % (extra, m_["problems"]), m_["where"])
             # operand pushes must precede the dedup branch: check statement order
             stmts = m_["fn"]["body"][1]
-            idx_dd = [i for i, s in enumerate(stmts) if s[0] == "expr" and builder._dedup(s[1], "inst") is not None]
-            idx_ops = [i for i, s in enumerate(stmts) if s[0] == "expr" and "inst.operands" in show(s[1]) and builder._dedup(s[1], "inst") is None]
+            idx_dd = [i for i, s in enumerate(stmts) if s[0] == "expr" and "dedup_insert_type" in show(s[1])]
+            idx_ops = [i for i, s in enumerate(stmts) if s[0] == "expr" and ".operands" in show(s[1]) and "dedup_insert_type" not in show(s[1])]
             chk.check(R3, idx_dd and all(i < idx_dd[0] for i in idx_ops), "Builder::%s:order" % m_["name"],
                       "operands are modified after the duplicate lookup", m_["where"])
     chk.floor(R3, "implicit type methods", nd, 33)
@@ -160,7 +153,168 @@ def run(ctx, chk):
     chk.analysed.update({"builder_methods": len(ms), "emitting": n, "dedup_methods": nd, "next_id_writers": sorted(writers)})
 
 
+def fmt_lin(v):
+    if isinstance(v, tuple):
+        return "%s%+d" % v if v[1] else v[0]
+    return str(v)
+
+
+def eval_counter(f):
+    """Symbolic evaluation of Builder::id over the counter N = self.next_id: -> (returned value, final next_id) as N or (N, k)."""
+    env = {}
+    state = {"next": "N"}
+
+    def lin(v):
+        return (v, 0) if isinstance(v, str) else v
+
+    def val(e):
+        e = unblock(e)
+        k = e[0]
+        if k == "field" and show(e) == "self.next_id":
+            return state["next"]
+        if k == "path" and e[1] in env:
+            return env[e[1]]
+        if k == "lit" and e[1] == "int":
+            return int(e[2])
+        if k == "binary" and e[1] in ("+", "-"):
+            a, b = val(e[2]), val(e[3])
+            if isinstance(b, int) and not isinstance(a, int):
+                a = lin(a)
+                r = (a[0], a[1] + (b if e[1] == "+" else -b))
+                return r if r[1] else r[0]
+            if isinstance(a, int) and not isinstance(b, int) and e[1] == "+":
+                b = lin(b)
+                return (b[0], b[1] + a)
+            raise Anchor("id(): arithmetic %s" % show(e))
+        if k == "assignop" and show(e[2]) == "self.next_id" and e[1] in ("+", "-"):
+            b = val(e[3])
+            a = lin(state["next"])
+            if not isinstance(b, int):
+                raise Anchor("id(): increment by a non-constant")
+            r = (a[0], a[1] + (b if e[1] == "+" else -b))
+            state["next"] = r if r[1] else r[0]
+            return None
+        if k == "assign" and show(e[1]) == "self.next_id":
+            state["next"] = val(e[2])
+            return None
+        if k == "call" and (path_of(e[1]) or "").endswith("mem::replace") and len(e[2]) == 2 and show(e[2][0]) == "&mut self.next_id":
+            new = val(e[2][1])
+            old = state["next"]
+            state["next"] = new
+            return old
+        if k == "call" and (path_of(e[1]) or "").endswith("mem::take"):
+            raise Anchor("id(): mem::take resets the counter")
+        raise Anchor("id(): unrecognised expression %s" % show(e)[:80])
+    r = None
+    for s_ in f["body"][1]:
+        if s_[0] == "local" and s_[1][0] == "p_ident" and s_[3] is not None:
+            env[s_[1][1]] = val(s_[3])
+            r = None
+        elif s_[0] == "expr":
+            r = val(s_[1])
+            if s_[2]:
+                r = None
+        else:
+            raise Anchor("id(): statement")
+    return (r, state["next"])
+
+
+def module_bound_shape(f):
+    """every way of producing the header stores next_id: exactly two `bound` writers (assignment to <h>.bound, ModuleHeader::new(x)),
+    under complementary conditions on the presence of the header, each storing self.next_id (possibly through a local bound to it)"""
+    from ..tree import sites
+    alias = {"self.next_id"}
+    for n in walk(f["body"]):
+        if n[0] == "block":
+            for s_ in n[1]:
+                if s_[0] == "local" and s_[3] is not None:
+                    if show(s_[3]) == "self.next_id" and s_[1][0] == "p_ident":
+                        alias.add(s_[1][1])
+                    if s_[1][0] == "p_struct" and s_[1][1].split("::")[-1] == "Builder" and show(s_[3]) == "self":
+                        for fld, p in s_[1][2]:
+                            if fld == "next_id" and p[0] == "p_ident":
+                                alias.add(p[1])
+    ws = sites(f["body"], lambda n: (n[0] == "assign" and show(n[1]).endswith(".bound")) or
+               (n[0] == "call" and (path_of(n[1]) or "").endswith("ModuleHeader::new") and len(n[2]) == 1))
+    if len(ws) != 2:
+        return False, "%d bound-writing sites" % len(ws)
+    kinds = set()
+    for n, conds in ws:
+        rhs = show(n[2]) if n[0] == "assign" else show(n[2][0])
+        if rhs not in alias:
+            return False, "a branch stores %s" % rhs
+        c = " ".join(conds)
+        if "Some(" in c and not c.startswith("!("):
+            kinds.add("some")
+        elif "None" in c or c.startswith("!("):
+            kinds.add("none")
+        else:
+            return False, "condition %s" % conds
+    return kinds == {"some", "none"}, "branches %s" % sorted(kinds)
+
+
+def first_match_pipeline(f):
+    """dedup_insert_type as a pipeline: (source, predicate, projection) of `first element of source satisfying predicate with
+    Some(projection)`; recognises the for/if/if-let/return form and the iterator forms filter+find_map / filter_map+next / find_map"""
+    inst = f["sig"]["params"][1][0]
+    st = f["body"][1]
+    # for ty in &SRC { if P { if let Some(id) = PROJ { return Some(id); } } } None
+    if len(st) == 2 and st[0][0] == "expr" and st[0][1][0] == "for" and show_stmt(st[1]) == "None":
+        loop = st[0][1]
+        v = loop[1][1] if loop[1][0] == "p_ident" else None
+        src = show(loop[2]).lstrip("&")
+        conds, proj = [], None
+        body = loop[3]
+        while True:
+            inner = body[1]
+            if len(inner) != 1 or inner[0][0] != "expr":
+                return None
+            e = inner[0][1]
+            if e[0] == "if" and e[3] is None and e[1][0] != "let":
+                conds.append(show(e[1]).replace(v + ".", "_."))
+                body = e[2]
+                continue
+            if e[0] == "if" and e[3] is None and e[1][0] == "let" and e[1][1][0] == "p_ts" and e[1][1][1] == "Some":
+                idv = e[1][1][2][0][1]
+                if [show_stmt(x) for x in e[2][1]] == ["return Some(%s);" % idv]:
+                    proj = show(e[1][2]).replace(v + ".", "_.")
+                    break
+            return None
+        return (src, conds, proj)
+    # iterator forms
+    if len(st) == 1 and st[0][0] == "expr":
+        e = unblock(st[0][1])
+        if e[0] == "mcall" and e[2] == "find_map" and e[3][0][0] == "closure":
+            proj = show(e[3][0][2]).replace(e[3][0][1][0][1] + ".", "_.")
+            r = e[1]
+            conds = []
+            while r[0] == "mcall" and r[2] == "filter" and r[3][0][0] == "closure":
+                conds.insert(0, show(r[3][0][2]).replace(r[3][0][1][0][1] + ".", "_."))
+                r = r[1]
+            if r[0] == "mcall" and r[2] == "iter":
+                return (show(r[1]), conds, proj)
+        if e[0] == "mcall" and e[2] == "next" and e[1][0] == "mcall" and e[1][2] == "filter_map":
+            r = e[1]
+            proj = show(r[3][0][2]).replace(r[3][0][1][0][1] + ".", "_.")
+            conds = []
+            r = r[1]
+            while r[0] == "mcall" and r[2] == "filter" and r[3][0][0] == "closure":
+                conds.insert(0, show(r[3][0][2]).replace(r[3][0][1][0][1] + ".", "_."))
+                r = r[1]
+            if r[0] == "mcall" and r[2] == "iter":
+                return (show(r[1]), conds, proj)
+    return None
+
+
 def dedup_lookup_shape(f):
+    inst = f["sig"]["params"][1][0]
+    p = first_match_pipeline(f)
+    if p is not None:
+        return p == ("self.module.types_global_values", ["_.is_type_identical(%s)" % inst], "_.result_id")
+    return _dedup_lookup_shape_old(f)
+
+
+def _dedup_lookup_shape_old(f):
     inst = f["sig"]["params"][1][0]
     st = f["body"][1]
     if len(st) != 2 or st[0][0] != "expr" or st[0][1][0] != "for":
